@@ -239,6 +239,10 @@ def run(ck: Checker):
     from .C02 import check_sites
     check_sites(ck, R='C10.IDX', only_function='Circuit.connect_circuit')
     ck.floor('C10.IDX', 1)
+    ck.rule('C02.COPY', 'blocks and circuits own their lists: no store into Circuit state and no Block(...) argument aliases a caller-visible list, so a later composition cannot change an earlier block (shared with C02)')
+    from .C02 import check_copy
+    check_copy(ck, eff)
+    ck.floor('C02.COPY', 15)
     ck.assume('truth-table equality of the composition and Block.into_circuit round trip are not decided beyond these structural clauses')
 
 
